@@ -126,6 +126,21 @@ CLAIMS = {
        "plus sampler populations (build / restore / return) over namespace x width, the xp= output option and a real zuko proposal consumed in three namespaces.",
   note=TB + "The library rules (asarray rejects a foreign dtype object; numpy and jax share dtype objects; default widths) are parameters of the model validated by the exhaustive run. jax with x64 enabled as in the repository's tests.",
   technique="Lean 4 proof by kernel evaluation of the complete finite table + exhaustive differential correspondence on the real classes"),
+ "C13": dict(
+  text="Theorems about the model of the HDF5 codec: decode(encode leaf) = leaf iff the leaf is not a sentinel string; dotted keys split back into their segments; flattening enumerates root-to-leaf paths with distinct dataset names; "
+       "for every well-formed nested dictionary load(save d) = d exactly, and for ANY order in which the datasets are listed the result is equal up to the order of entries at every depth (codec_roundtrip_perm); "
+       "an Aspire configuration (bounds, periodic parameters, flow options, namespace, precision) is rebuilt exactly through the file (config_roundtrip). Negative witnesses for dotted keys and sentinel strings. "
+       "The real save/load of dictionaries, sample sets (3 classes x 3 namespaces x 2 widths x field subsets x layouts x name orders), histories, every transform class, zuko/flowjax flows with custom options and resume_from_file are exercised on every run.",
+  note=TB + "h5py is modelled as a key->dataset map listed in any order; per-class record<->tree maps of samples/histories/transforms/flows are covered by the observational correspondence, not by separate theorems; "
+       "h5py's conversion of number lists into arrays is identified observationally (list vs array of equal values).",
+  technique="Lean 4 proof (structural induction over value trees, permutation-invariant reload) + differential correspondence through real HDF5 files + observational round-trip oracle"),
+ "C14": dict(
+  text="The full-strength statement (every operation sequence leaves every file consistent) is kept and REFUTED with concrete witnesses (known finding: a checkpoint of an earlier run stays next to a replaced or missing proposal/configuration). "
+       "Proved: Safe ops -> AllConsistent (srun {} ops), where Safe is a decidable predicate that is EXACTLY the set of sequences consistent after every operation (safe_iff_consistent_throughout); a syntactic regular sub-language (fits, SMC runs to explicit or context paths, "
+       "refit + rerun inside contexts, nested contexts) is shown safe; a completed or checkpoint-reaching SMC run always writes the proposal it samples with (the single-step fact behind two fix: commits, whose pinned variants are proved inconsistent); "
+       "resume_from_file never mixes a population with a proposal other than the file's. All sequences to length 3/4 plus random ones on a real Aspire are compared with the model after every operation.",
+  note=TB + "Proposals are version numbers (the stub proposal's parameters identify the fit that produced them); only SMC writes checkpoints in the model; sampling without a proposal is outside the differential check.",
+  technique="Lean 4 proof (state-machine invariant, exact characterisation of the safe language, refutation witnesses) + exhaustive short op-sequence correspondence + direct file oracle"),
 }
 NOT_YET = "check not built yet (work in progress; see DESIGN.md section 10)"
 
